@@ -9,6 +9,7 @@ import (
 	"fmt"
 	"io"
 	"math/big"
+	"runtime"
 	"runtime/debug"
 	"sort"
 	"strings"
@@ -54,6 +55,14 @@ type Party struct {
 	evs    []string
 	w      *World
 	ErrMsg bool
+	// Mute: events of this party are not written to the trace (attacker-run endpoints)
+	Mute bool
+	// SMPTerm is the secret term the party bound in its current SMP run:
+	// [initiator, responder, session pair..., secret id]
+	SMPTerm []interface{}
+	// SMPRun identifies the SMP run the party takes part in (set when it starts one, or when
+	// the library reports that it accepted the peer's first message)
+	SMPRun int
 }
 
 // World is two (or more) parties, the wire between them and the trace.
@@ -73,9 +82,14 @@ type World struct {
 	lastUsageData []byte
 	ssidIdx       map[[8]byte][2]int
 	otherTags     map[uint32]int
-	EvilCommits   map[string]int
-	EvilRs        map[string]int
-	EvilValues    map[int]*big.Int
+	// SMPClass, when set, is the validity class ("bad", "corrupt") of the SMP payload of the
+	// attacker-made message being decoded
+	SMPClass    string
+	smpRuns     int
+	lastInLen   int
+	EvilCommits map[string]int
+	EvilRs      map[string]int
+	EvilValues  map[int]*big.Int
 	// MaxCallMs is the slowest API call seen.
 	MaxCallMs float64
 	TextGen   func(id int) []byte
@@ -121,6 +135,11 @@ func New(seed uint64, trace io.Writer) *World {
 // AddParty creates a fresh conversation. version 0 leaves the version to be
 // negotiated; 2 or 3 pre-commits it (NewConversationWithVersion).
 func (w *World) AddParty(name, peer string, pol Policy, version int) *Party {
+	return w.AddPartyKey(name, peer, pol, version, name)
+}
+
+// AddPartyKey is AddParty with the long-term key of another principal (attacker-run endpoints).
+func (w *World) AddPartyKey(name, peer string, pol Policy, version int, keyName string) *Party {
 	p := &Party{Name: name, Peer: peer, Pol: pol, w: w, ErrMsg: true}
 	if version == 0 {
 		p.Conv = &otr3.Conversation{}
@@ -129,7 +148,7 @@ func (w *World) AddParty(name, peer string, pol Policy, version int) *Party {
 	}
 	p.Rand = NewJRand(name, w.Seed, w.Reg)
 	p.Conv.Rand = p.Rand
-	p.Priv, _ = DSAKey(name)
+	p.Priv, _ = DSAKey(keyName)
 	p.Conv.SetOurKeys([]otr3.PrivateKey{p.Priv})
 	if pol.V2 {
 		p.Conv.Policies.AllowV2()
@@ -334,11 +353,14 @@ func (w *World) resolveSSID(ssid [8]byte) []int {
 type callResult struct {
 	panicked string
 	ms       float64
+	alloc    uint64
 }
 
 func (w *World) call(p *Party, f func()) (res callResult) {
 	p.evs = nil
 	p.Rand.Fresh = nil
+	var m0, m1 runtime.MemStats
+	runtime.ReadMemStats(&m0)
 	t0 := time.Now()
 	func() {
 		defer func() {
@@ -349,6 +371,8 @@ func (w *World) call(p *Party, f func()) (res callResult) {
 		f()
 	}()
 	res.ms = float64(time.Since(t0).Microseconds()) / 1000
+	runtime.ReadMemStats(&m1)
+	res.alloc = m1.TotalAlloc - m0.TotalAlloc
 	if res.ms > w.MaxCallMs {
 		w.MaxCallMs = res.ms
 	}
@@ -418,9 +442,12 @@ func errClass(err error) string {
 }
 
 func (w *World) record(ev M, p *Party, cr callResult, out []M, err error) M {
+	if p.Mute {
+		return ev
+	}
 	ev["p"] = p.Name
 	ev["i"] = w.N + 1
-	for k, v := range map[string]interface{}{"plain": 0, "hi": false, "np": 0, "text": 0, "prs": false, "atk": "", "raweq": false} {
+	for k, v := range map[string]interface{}{"plain": 0, "hi": false, "np": 0, "text": 0, "prs": false, "atk": "", "raweq": false, "s": 0, "q": false, "run": 0} {
 		if _, ok := ev[k]; !ok {
 			ev[k] = v
 		}
@@ -439,6 +466,10 @@ func (w *World) record(ev M, p *Party, cr callResult, out []M, err error) M {
 	}
 	ev["fresh"] = fresh
 	ev["panic"] = cr.panicked != ""
+	ev["ms"] = int(cr.ms)
+	ev["allock"] = int(cr.alloc / 1024)
+	ev["inlen"] = w.lastInLen
+	w.lastInLen = 0
 	if cr.panicked != "" {
 		ev["panics"] = cr.panicked
 	}
@@ -488,6 +519,9 @@ func (w *World) Done() {
 func (w *World) InitFam(fam string) {
 	pol, ver := M{}, M{}
 	for n, p := range w.P {
+		if p.Mute {
+			continue
+		}
 		pol[n] = p.Pol.M()
 		ver[n] = otr3.VerifProject(p.Conv).Version
 	}
@@ -535,6 +569,9 @@ func (w *World) Receive(p *Party, wm *WireMsg) M {
 }
 
 func (w *World) receive(p *Party, wm *WireMsg, sink bool, atk string) M {
+	for _, r := range wm.Raw {
+		w.lastInLen += len(r)
+	}
 	var out []otr3.ValidMessage
 	var plain otr3.MessagePlaintext
 	var err error
@@ -567,6 +604,15 @@ func (w *World) receive(p *Party, wm *WireMsg, sink bool, atk string) M {
 			_ = i
 		}
 	})
+	for _, e := range p.evs {
+		if e == "smp:AskForSecret" || e == "smp:AskForAnswer" {
+			if sm, ok := wm.Abs["smp"].(M); ok {
+				if r, ok := sm["run"].(int); ok {
+					p.SMPRun = r
+				}
+			}
+		}
+	}
 	pid := 0
 	prs := false
 	if plain != nil {
@@ -604,6 +650,16 @@ func (w *World) InjectRaw(p *Party, raw ...[]byte) *WireMsg {
 	return wm
 }
 
+// DeliverAttack delivers the head of p's queue, marked as attacker-made; replies go to the peer.
+func (w *World) DeliverAttack(p *Party, name string) M {
+	if len(p.Queue) == 0 {
+		return nil
+	}
+	wm := p.Queue[0]
+	p.Queue = p.Queue[1:]
+	return w.receive(p, wm, false, name)
+}
+
 // Deliver delivers the head of p's queue (FIFO). Returns nil if empty.
 func (w *World) Deliver(p *Party) M {
 	if len(p.Queue) == 0 {
@@ -634,16 +690,36 @@ func (w *World) Tick(p *Party) M {
 	return w.record(M{"ev": "Tick"}, p, cr, []M{}, nil)
 }
 
+func (w *World) smpTerm(p *Party, initiator bool, sid int) []interface{} {
+	s := otr3.VerifProject(p.Conv)
+	sess := w.resolveSSID(s.SSID)
+	peer := w.Reg.FPName(s.TheirKeyFP)
+	if initiator {
+		return []interface{}{p.Name, peer, sess[0], sess[1], sid}
+	}
+	return []interface{}{peer, p.Name, sess[0], sess[1], sid}
+}
+
 func (w *World) SMPStart(p *Party, secret []byte, question string, sid int) M {
 	var out []otr3.ValidMessage
 	var err error
+	run := 0
+	if p.Conv.IsEncrypted() {
+		p.SMPTerm = w.smpTerm(p, true, sid)
+		w.smpRuns++
+		run = w.smpRuns
+		p.SMPRun = run
+	}
 	cr := w.call(p, func() { out, err = p.Conv.StartAuthenticate(question, secret) })
-	return w.record(M{"ev": "SMPStart", "s": sid, "q": question != ""}, p, cr, w.emit(p, out), err)
+	return w.record(M{"ev": "SMPStart", "s": sid, "q": question != "", "run": run}, p, cr, w.emit(p, out), err)
 }
 
 func (w *World) SMPAnswer(p *Party, secret []byte, sid int) M {
 	var out []otr3.ValidMessage
 	var err error
+	if p.Conv.IsEncrypted() {
+		p.SMPTerm = w.smpTerm(p, false, sid)
+	}
 	cr := w.call(p, func() { out, err = p.Conv.ProvideAuthenticationSecret(secret) })
 	return w.record(M{"ev": "SMPAnswer", "s": sid}, p, cr, w.emit(p, out), err)
 }
